@@ -99,6 +99,13 @@ func (f *FileReaderImpl) FileExists(path string) (bool, error) {
 func (f *FileReaderImpl) collectFromDirectory(dirPath string, recursive bool, includePatterns, excludePatterns []string) ([]string, error) {
 	var files []string
 
+	// filepath.Walk does not follow a symbolic link given as its root. The caller
+	// has established that dirPath names a directory, so a link is walked as the
+	// directory it names, exactly as when it is spelled with a trailing separator
+	if info, err := os.Lstat(dirPath); err == nil && info.Mode()&os.ModeSymlink != 0 {
+		dirPath += string(filepath.Separator)
+	}
+
 	walkFunc := func(path string, info os.FileInfo, err error) error {
 		if err != nil {
 			// Log warning but continue processing other files
@@ -126,9 +133,12 @@ func (f *FileReaderImpl) collectFromDirectory(dirPath string, recursive bool, in
 
 		// A symbolic link is reported with the information of the link itself.
 		// One whose target does not exist names no file to analyze: skip it,
-		// like any other entry that cannot be read
+		// like any other entry that cannot be read. One that names a directory
+		// is no file either, whatever its name looks like (the walk does not
+		// enter it)
 		if info.Mode()&os.ModeSymlink != 0 {
-			if _, statErr := os.Stat(path); statErr != nil {
+			target, statErr := os.Stat(path)
+			if statErr != nil || target.IsDir() {
 				return nil
 			}
 		}
